@@ -176,7 +176,7 @@ func c19(e *Env) {
 	cfg.WClock = 0
 	cfg.FragProb = 0 // TLS record contents are random: no choice may depend on them
 	cfg.Hosts = 1 + c.Choose("hosts", 3)
-	cfg.NumConns = 1
+	cfg.NumConns = 1 + c.Choose("numconns", 3) // several handshakes with one endpoint configuration at a time
 	cfg.KeepLog = e.Keep
 	cfg.ReconnBase, cfg.ReconnMax = time.Second, 5*time.Second
 	w := world.New(cfg, e.S, e.N, e.C)
